@@ -1272,6 +1272,7 @@ def OP_LOOP(tape: Tape, stack: Stack, cache: dict) -> None:
         sert(count < tape.callstack_limit, 'OP_LOOP limit exceeded')
         run_tape(subtape, stack, cache)
         if 'returned' in cache:
+            del cache['returned']
             return
         subtape.reset_pointer()
         count += 1
